@@ -127,6 +127,12 @@ pub fn configs(tier: Tier) -> Vec<Config> {
             }
         }
     }
+    // a few large windows (variable-length weight vectors, n-grams hanging over the sentence start)
+    for (cw, cn, tw, tn) in [(9u8, 2u8, 8u8, 1u8), (8, 1, 12, 2), (12, 3, 9, 3)] {
+        for &sv in &[1u8, 5] {
+            out.push(Config { charw: cw, charn: cn, typew: tw, typen: tn, dict: vec!["ab".into()], bucket: 2, solver: sv });
+        }
+    }
     out
 }
 
